@@ -55,8 +55,8 @@ Definition single_bit_error (e : list N) : Prop :=
   exists i : nat, forall k, bit_at e k = true <-> k = i.
 
 (* exactly two bits are flipped, less than w bit positions apart *)
-Definition double_bit_error (w : nat) (e : list N) : Prop :=
-  exists i j : nat, (i < j)%nat /\ (j - i < w)%nat /\
+Definition double_bit_error (w : N) (e : list N) : Prop :=
+  exists i j : nat, (i < j)%nat /\ N.of_nat (j - i) < w /\
     forall k, bit_at e k = true <-> (k = i \/ k = j).
 
 (* at least one bit is flipped and all flipped bits lie within len consecutive positions *)
@@ -99,3 +99,8 @@ Definition frame_span (b : list N) : option (list N) :=
   | Some n => if (n <=? length b)%nat then Some (firstn n b) else None
   | None => None
   end.
+
+(* the errors a CRC-16 with generator x^16+x^12+x^5+1 is designed to catch; 32767 is the
+   order of x modulo the generator, beyond which some double-bit errors are invisible *)
+Definition crc16_detectable (e : list N) : Prop :=
+  single_bit_error e \/ double_bit_error 32767 e \/ burst_error 16 e \/ odd_weight_error e.
